@@ -79,6 +79,9 @@ def _hist_worker(args) -> Dict[str, Any]:
             if r.get("retained_changed"):
                 findings.append({"id": r["id"], "kind": "diff", "record": None,
                                  "text": [f"a retained SimulationState changed after later phases (obtained at {x}): the recorded pre-states cannot be trusted" for x in r["retained_changed"][:3]]})
+            for x in r.get("impl_raised") or []:
+                findings.append({"id": x["id"], "kind": "diff", "record": {"op": "impl-raised", **x},
+                                 "text": [f"impl: raised {x['exc']} in step {x['id']} ({'; '.join(x['where'][-2:])}): the model completes every phase"]})
             continue
         for t in _triples(r):
             triples.add(t)
